@@ -401,6 +401,40 @@ Proof.
   destruct out; reflexivity.
 Qed.
 
+(* --- count and expiry are set atomically: no counter without an expiry --- *)
+(* The script is one atomic step of the server, so whatever happens to the caller while its take is
+   at the server (cancelled context, dead connection), the store it leaves never holds a counter that
+   does not expire: every window that was opened still ends. *)
+Definition expiring (s : store) : Prop :=
+  forall k c ex, alookup Nat.eqb k s = Some (c, ex) -> 1 <= c /\ exists e, ex = Some e.
+
+Lemma take_expiring t up k q w (s : store) : 1 <= w -> expiring s -> expiring (fst (take t up k q w s)).
+Proof.
+  intros W E k' c ex H.
+  destruct (Nat.eq_dec k' k) as [->|N].
+  - pose proof (take_entry_spec t up k q w s) as [A1 _]. cbn zeta in A1. rewrite A1 in H.
+    destruct up; [|apply (E k c ex H)].
+    unfold take_entry in H. assert (Hw : (w <=? 0) = false) by lia.
+    destruct (alookup Nat.eqb k s) as [[v x]|] eqn:L.
+    + destruct (E k v x L) as [V [e ->]]. unfold live in H. cbn [fst snd] in H.
+      destruct (t <? e).
+      * assert (N1 : (v + 1 =? 1) = false) by lia. rewrite N1 in H. inversion H; subst. split; [lia|eauto].
+      * cbn in H. rewrite Hw in H. inversion H; subst. split; [lia|eauto].
+    + cbn in H. rewrite Hw in H. inversion H; subst. split; [lia|eauto].
+  - rewrite take_other in H by assumption. apply (E k' c ex H).
+Qed.
+
+Lemma pfinal_expiring ops : forall t (s : store), Forall pos_windows ops -> expiring s ->
+  expiring (snd (pfinal (t, s) ops)).
+Proof.
+  induction ops as [|o r IH]; intros t s F E; [exact E|].
+  inversion F as [|? ? Ho Fr]; subst. destruct o as [d|k q w up|]; cbn [pfinal pstep fst snd].
+  - apply IH; assumption.
+  - pose proof (take_expiring t up k q w s Ho E) as E'. destruct (take t up k q w s) as [s' res]. cbn [fst snd] in *.
+    apply IH; assumption.
+  - apply IH; [assumption|]. intros k c ex H. discriminate.
+Qed.
+
 (* --- the window follows the SERVER clock only (relative expiry) --- *)
 (* Two servers whose clocks differ by a constant d (and whose stored expiries differ accordingly) answer
    every history identically: the period script never sees an absolute time, so a caller whose own
@@ -741,6 +775,32 @@ Section Token.
     split; [|apply level_range; assumption].
     unfold btake in BT. rewrite Z.mul_1_r in BT.
     destruct (n <=? blevel rate cap 1 b sec) eqn:G; inversion BT; subst; split; intro; try lia; try discriminate; reflexivity.
+  Qed.
+
+  (* the decision depends on the bucket level only: a refused large request does not stand in the
+     way of a smaller one that fits, in the same second *)
+  Lemma token_denied_then_smaller t0 s0 h n1 n2 :
+    alookup Nat.eqb kt s0 = None -> alookup Nat.eqb ks s0 = None -> hwf h ->
+    let sec := (t0 + helapsed h) / 1000 in
+    let b := bfinal rate cap 1 (binit cap 1 (t0 / 1000)) (reqs_of t0 h) in
+    0 <= n2 <= blevel rate cap 1 b sec -> blevel rate cap 1 b sec < n1 ->
+    exists stf evs,
+      hrun c (t0, s0) (h ++ [HReq n1; HReq n2]) = Some (stf, evs ++ [mkEv sec n1 false; mkEv sec n2 true]).
+  Proof.
+    intros E1 E2 W sec b N2 N1.
+    assert (W' : hwf (h ++ [HReq n1; HReq n2])).
+    { apply Forall_app; split; [assumption|]. repeat constructor; lia. }
+    destruct (token_refines t0 s0 _ E1 E2 W') as (stf & R).
+    rewrite reqs_of_app, strace_app in R. cbn [reqs_of strace] in R. fold sec in R. fold b in R.
+    exists stf, (strace (binit cap 1 (t0 / 1000)) (reqs_of t0 h)). rewrite R. do 3 f_equal.
+    unfold btake at 1. rewrite Z.mul_1_r. set (lvl := blevel rate cap 1 b sec) in *.
+    assert (G1 : (n1 <=? lvl) = false) by lia. rewrite G1. cbn [fst snd].
+    destruct (hrun_refines h t0 s0 _ (tinv_init t0 s0 E1 E2) W) as (st1 & _ & C1 & (HL & HT & _)).
+    fold b in HL, HT. rewrite C1 in HT. fold sec in HT.
+    pose proof (level_range b sec HL HT) as LR. fold lvl in LR.
+    unfold btake, blevel. cbn [fst snd]. rewrite !Z.mul_1_r.
+    replace ((sec - sec) * rate) with 0 by ring. rewrite Z.add_0_r, Z.min_r by lia.
+    assert (G2 : (n2 <=? lvl) = true) by lia. rewrite G2. reflexivity.
   Qed.
 
   Lemma token_bound t0 s0 h stf evs s t :
